@@ -10,6 +10,7 @@
 #include <string>
 #include <vector>
 
+#include <sys/mman.h>
 #include "api.hpp"
 #include "prog.hpp"
 
@@ -90,7 +91,9 @@ public:
 
     struct Slot {
         int kind = -1;
-        uint8_t *mem = nullptr;   // SLOT_BYTES, 64-aligned
+        uint8_t *mem = nullptr;   // SLOT_BYTES at base + ao
+        uint8_t *base = nullptr;  // 64-aligned allocation
+        size_t map_len = 0;       // != 0: base is a private mapping (ro=1)
         uint8_t fill = 0;
         bool keyed = false;       // a key-setting call on a caller-owned schedule succeeded
         int be = -1;
@@ -109,6 +112,9 @@ public:
         t.reserve(p.size());
         for (const Op &op : p) {
             Rec r;
+            // rep=N: the same call N times in a row (setter storms: thresholds in the number of calls between two data calls)
+            long long rep = op.geti("rep", 1);
+            for (long long k = 1; k < rep && k < (1 << 20); ++k) { Rec scratch; step(op, scratch); }
             step(op, r);
             // measured API surface: public function x back end of the object at that moment x answer
             if (op.name.rfind("new.", 0) != 0 && op.name.rfind("cap.", 0) != 0) {
@@ -157,7 +163,7 @@ private:
     void release() {
         finalize();
         free_heap_blocks();
-        for (Slot &s : slots) if (s.mem) free(s.mem);
+        for (Slot &s : slots) if (s.base) { if (s.map_len) munmap(s.base, s.map_len); else free(s.base); }
         slots.clear();
     }
 
@@ -338,8 +344,17 @@ private:
             s.kind = kind_of(fn);
             if (s.kind < 0) { r.err = "bad-op;"; return; }
             s.fill = (uint8_t)op.geti("fill", 0);
-            if (posix_memalign((void **)&s.mem, 64, SLOT_BYTES) != 0) abort();
-            memset(s.mem, s.fill, SLOT_BYTES);
+            // ao: where the caller's object sits relative to a 64-byte boundary (a multiple of 8: the types need no more)
+            size_t ao = (size_t)op.geti("ao", 0) & 56;
+            if (op.geti("ro")) {
+                // ro=1: the object lives in pages of its own which are read-only while a function that takes it as a
+                // pointer-to-const runs (const means const: a schedule may sit in read-only memory or be shared by threads)
+                s.map_len = 8192;
+                s.base = (uint8_t *)mmap(nullptr, s.map_len, PROT_READ | PROT_WRITE, MAP_PRIVATE | MAP_ANONYMOUS, -1, 0);
+                if (s.base == (uint8_t *)MAP_FAILED) abort();
+            } else if (posix_memalign((void **)&s.base, 64, SLOT_BYTES + 64) != 0) abort();
+            memset(s.base, s.fill, SLOT_BYTES + 64);
+            s.mem = s.base + ao;
             if (op.geti("plant") && (kind_is_ctr(s.kind) || kind_is_par(s.kind))) {
                 // prior content: a handle whose vtable/ctx fields point at harness-owned canary memory
                 Skinny128CTR_t *h = (Skinny128CTR_t *)s.mem;
@@ -354,6 +369,10 @@ private:
         Slot *s = slot(op);
         if (s && s->kind != kind) { r.err = "bad-op-kind;"; return; }
         void *obj = s ? (void *)s->mem : nullptr;
+        bool ro = s && s->map_len && !op.geti("sh") &&
+                  (fn == "enc" || fn == "dec" || fn == "crypt" || fn == "crypt_tw");   // the functions whose object parameter is const
+        if (ro) mprotect(s->base, s->map_len, PROT_READ);
+        struct Unprotect { Slot *s; bool on; ~Unprotect() { if (on) mprotect(s->base, s->map_len, PROT_READ | PROT_WRITE); } } unprotect{s, ro};
         begin_call(op);
         switch (kind) {
         case K128: sched<Skinny128Key_t, Skinny128TweakedKey_t, 16>(op, fn, s, obj, r, false); break;
